@@ -229,7 +229,10 @@ func (s *fsm12) finish(ctx context.Context, c Conn) (State, error) {
 	select {
 	case state := <-c.RecvHandshake():
 		close(state.Done)
-		if s.state.IsClient {
+		// The side that sent the last flight of the handshake answers a peer
+		// retransmission by re-sending it: the server after a full handshake
+		// (Flight 6), the client after an abbreviated one (Flight 5b).
+		if s.state.IsClient && !s.currentFlight.IsLastSendFlight() {
 			return StateFinished, nil
 		}
 
